@@ -54,7 +54,12 @@ def lift_array(NPs, a):
 
 
 def install(ctx: Ctx, floats="exact", scalar="fraction", exact_tables=True, modules=None, shadow_float=("EasyFEA.Simulations._elastic",
-                                                                                               "EasyFEA.Simulations._simu")):
+                                                                                               "EasyFEA.Simulations._simu"),
+            gauss="float"):
+    """gauss='float': the quadrature tables are computed by the unmodified _gauss.py in floats and read as exact rationals
+    (the code's own points); gauss='algebraic': np.sqrt inside _gauss.py is exact (slower, radicals in every entry)."""
+    if modules is None and gauss == "float":
+        modules = [m for m in MODULES if m != "EasyFEA.FEM._gauss"]
     NPs = npshim.NP(ctx, floats=floats)
     NPs._scalar = scalar
     ctx.floats = floats
